@@ -221,7 +221,7 @@ func vhBucketOf(a *Aggregated, id int) (int, int) {
 //verif:param level 0..3
 //verif:param nf 1
 //verif:param nfLast quick=1 thorough=0..2
-//verif:param perm quick=0,5 thorough=0..23
+//verif:param perm quick=0,5 thorough=0,5,7,23
 //verif:summarize (*Signature).similar (*Signature).equal (*Signature).less (*Stack).less
 //verif:replay-iters 200
 func VH_Agg_Partition(k, fam, level, nf, nfLast, perm int) {
@@ -257,7 +257,7 @@ func VH_Agg_Partition(k, fam, level, nf, nfLast, perm int) {
 //verif:param level 0..3
 //verif:param nf 1
 //verif:param nfLast quick=1 thorough=0..2
-//verif:param perm quick=0,5 thorough=0..23
+//verif:param perm quick=0,5 thorough=0,5,7,23
 //verif:summarize (*Signature).similar (*Signature).equal (*Signature).less (*Stack).less
 //verif:replay-iters 200
 func VH_Agg_Classes(k, fam, level, nf, nfLast, perm int) {
@@ -304,7 +304,7 @@ func vhArgEq(a, b *Arg) bool {
 //verif:param k quick=2..3 thorough=2..4
 //verif:param fam 0,1,3,5,6
 //verif:param level 0..3
-//verif:param perm quick=0,5 thorough=0..23
+//verif:param perm quick=0,5 thorough=0,5,7,23
 //verif:summarize (*Signature).similar (*Signature).equal (*Signature).less (*Stack).less
 //verif:replay-iters 200
 func VH_Agg_Generalises(k, fam, level, perm int) {
@@ -445,10 +445,10 @@ func vhArgsEq(a, b *Args) bool {
 // independent map iteration orders) give the same bucket sequence.
 //
 //verif:prop C06
-//verif:param k quick=2..3 thorough=2..4
+//verif:param k quick=2..3 thorough=2..3
 //verif:param fam 0..6
 //verif:param level 0..3
-//verif:param perm quick=0,5 thorough=0..23
+//verif:param perm quick=0,5 thorough=0,5,7,23
 //verif:summarize (*Signature).similar (*Signature).equal (*Signature).less (*Stack).less
 //verif:replay-iters 300
 func VH_Agg_Deterministic(k, fam, level, perm int) {
@@ -484,7 +484,7 @@ func VH_Agg_Deterministic(k, fam, level, perm int) {
 //verif:param k quick=4 thorough=3..4
 //verif:param fam quick=0 thorough=0..6
 //verif:param level quick=1 thorough=0..3
-//verif:param perm quick=7,23 thorough=0..23
+//verif:param perm quick=7,23 thorough=0,5,7,23
 //verif:summarize (*Signature).similar (*Signature).equal (*Signature).less (*Stack).less
 //verif:replay-iters 300
 func VH_Agg_TotalOrder(k, fam, level, perm int) {
@@ -508,7 +508,7 @@ func VH_Agg_TotalOrder(k, fam, level, perm int) {
 //verif:param fam 0..6
 //verif:param level 0..3
 //verif:param level2 -1
-//verif:param perm quick=0,5 thorough=0..23
+//verif:param perm quick=0,5 thorough=0,5,7,23
 //verif:summarize (*Signature).similar (*Signature).equal (*Signature).less (*Stack).less
 //verif:replay-iters 50
 func VH_Agg_Immutable(k, fam, level, level2, perm int) {
